@@ -391,3 +391,22 @@ theorem laClauseCheck_sound (lits : List (Term × Bool)) (cert : Cert) (h : laCl
   exact refute_sound cert c d h ⟨xI I, hc.1, hc.2⟩
 
 end Osmt.LA
+
+namespace Osmt.LA
+open Osmt
+/-- **C26**: bounds accepted by `conflictCheck` with their coefficients are jointly unsatisfiable (over ℚ, and
+over ℤ for `Int` symbols): no well-formed interpretation makes all of them true. -/
+theorem conflictCheck_sound (lits : List (Term × Bool)) (ws : List Rat) (h : conflictCheck lits ws = true) :
+    ¬ ∃ I : Interp, I.WF ∧ ∀ l ∈ lits, evalB I l.1 = !l.2 := by
+  rintro ⟨I, hI, hall⟩
+  unfold conflictCheck at h
+  have hitems : ∀ it ∈ lits.map (fun l => itemOf l.1 l.2), it.holds (xI I) := by
+    intro it hit
+    obtain ⟨l, hl, rfl⟩ := List.mem_map.mp hit
+    exact itemOf_sound I hI l.1 l.2 (hall l hl)
+  have hc := collect_holds (xI I) _ hitems
+  generalize collect (lits.map (fun l => itemOf l.1 l.2)) = cd at h hc
+  obtain ⟨c, d⟩ := cd
+  simp only [Bool.and_eq_true] at h
+  exact farkas_sound _ h.2 ⟨xI I, fun ik hik => hc.1 ik.1 (List.of_mem_zip hik).1⟩
+end Osmt.LA
